@@ -16,4 +16,34 @@ TEXT = {
          "level": "The specification's store carries the hook counters (UserBalance, ExtensionExact are invariants of the model-checked design). The real code runs with an instrumented User type; at every store operation, probe and answer TLC checks with - take = |cstore|, that process_extension saw exactly the new bindings of each successful unification and nothing on failure.",
          "note": TB},
 }
+
+TS = ("Trusted: TLC, CommunityModules Json/IOUtils, the reference semantics Ref.tla (Eval) and the Rust projectors. "
+      "Bounded: goal-tree depth and alphabets of spec/MC_Search.tla / MC_Live.tla, unfolding fuel, step budgets.")
+TEXT.update({
+ "C05": {"ref": "DESIGN 5 C05", "technique": "TLA+ engine model (streams, step, solver loop) model-checked against a depth-first reference sequence; TLC-enumerated DFS goal trees and random programs replayed and compared position by position by TLC",
+         "level": "The engine model (Search.tla: constructors, mplus_dfs/bind_dfs, step, Solver::next) is model-checked on every DFS goal tree of the scope: at every step the emitted sequence is a prefix of the reference sequence (Ref.tla Eval), complete at exhaustion. The same trees and random cond/fresh/member/append programs inside dfs{} run on the real engine; TLC validates the recorded answer sequence position by position. The model's tick counts equal the implementation's on all enumerated trees (fidelity diagnostic).",
+         "note": TS},
+ "C06": {"ref": "DESIGN 5 C06", "technique": "TLA+ engine model model-checked for no-loss/no-invention against the reference bag; replay of enumerated BFS trees and random programs three ways, judged by TLC",
+         "level": "Every BFS goal tree of the scope is model-checked: nothing invented at any step, nothing lost at exhaustion. The trees, random programs run as written / inside dfs{} / through raw Conj nesting (implementation against implementation and against the reference), and bounded prefixes of infinite producers are executed on the real engine and validated by TLC.",
+         "note": TS},
+ "C07": {"ref": "DESIGN 5 C07", "technique": "TLC liveness checking (weak fairness) of the engine model on finite-state disjunctions, bounded productivity elsewhere; model tick counts become step budgets for the real engine",
+         "level": "Fair (every branch eventually contributes need[b] answers) is checked by TLC's liveness checker on all disjunctions of the finite-state scope (never/always/finite branches, nested, under conjunction); Productive (needs met within K ticks) on loop-producers. The real conde/loop is run with a step budget of 20x the model's ticks + 1000 and must deliver every branch's needed answers before the budget is exhausted.",
+         "note": TS},
+ "C08": {"ref": "DESIGN 5 C08", "technique": "TLA+ model of conda/condu/onceo (peek/trunc) model-checked against soft-cut reference semantics; replay judged by TLC",
+         "level": "All clause lists of the commit scope (heads with 0/1/several answers, lazily produced, rests with 0-2 answers, nested) are model-checked against the committed-choice reference; they and random library-relation programs, including infinite heads for condu/onceo, run on the real operators and TLC compares answer multisets (multiplicities included).",
+         "note": TS + " The kept answer of condu/onceo is the first one in ENGINE order, taken from the engine model (which reproduces the implementation's emission order and tick counts exactly on the enumerated scopes)."},
+ "C09": {"ref": "DESIGN 5 C09", "technique": "model-derived step budgets for take-n, extra next() calls after None, repeated runs across processes (hash seeds) compared by TLC up to renaming",
+         "level": "take n on infinite producers ends within the model-derived budget; the iterator stays None (4 more calls); the same query run R times in different processes yields equivalent answer sequences (TLC compares up to variable renaming and constraint-set order).",
+         "note": TS + " Hash-order sites that cannot be forced by the schedule hook are covered by repetition."},
+ "C10": {"ref": "DESIGN 5 C10", "technique": "compositional reference semantics + implementation-against-implementation multiset union, judged by TLC",
+         "level": "Value semantics of the specification make isolation hold by construction in the design; the real code is run on conde{A,B}, A, B, conde{B,A} under shared prefixes (bindings, disequalities, user trail, library relations, project) and TLC checks answers(conde{A,B}) = answers(A) + answers(B) as multisets and each run against the reference.",
+         "note": TS},
+ "C11": {"ref": "DESIGN 5 C11", "technique": "reference semantics of project (body under the reaching state's walk* value) vs recorded answers; panics are observations",
+         "level": "Programs in which 1-4 states reach a project goal whose body uses the projected value non-relationally are executed; TLC compares the answers (and the values the body saw, recorded in the user trail) with the reference, and a panic is a rejection.",
+         "note": TS + " Known finding (open): the second visit of one project goal panics; see known_findings.json."},
+ "C12": {"ref": "DESIGN 5 C12", "technique": "reference semantics of everyg + implementation-against-implementation comparison with the explicit conjunction, judged by TLC",
+         "level": "for x in coll { body } is run next to its explicit conjunction for collections of 0-3 terms sharing variables with the query; TLC checks both against the reference and against each other (multisets).",
+         "note": TS + " The surface `for` syntax is exercised by the surface backend (C14)."},
+})
+
 NOT_APPLICABLE = {}
